@@ -644,10 +644,14 @@ func (c *Compiler) Compile(node parser.Node) error {
 
 // Bytecode returns a compiled bytecode.
 func (c *Compiler) Bytecode() *Bytecode {
+	// copy: the compiler keeps appending to its own instruction buffer
+	cur := c.currentInstructions()
+	insts := make([]byte, 0, len(cur)+1)
+	insts = append(append(insts, cur...), parser.OpSuspend)
 	return &Bytecode{
 		FileSet: c.file.Set(),
 		MainFunction: &CompiledFunction{
-			Instructions: append(c.currentInstructions(), parser.OpSuspend),
+			Instructions: insts,
 			SourceMap:    c.currentSourceMap(),
 		},
 		Constants: c.constants,
